@@ -871,11 +871,44 @@ def r8_fresh_state(ctx) -> None:
     r, prog = ctx.r, ctx.prog
     r.rule("C15.R8", "convert_rule builds one ConversionState per parsed condition from a fresh copy of the pipeline state; DeferredQueryExpression registers only in the state it was given")
     cr = prog.func("sigma.conversion.base.Backend.convert_rule")
-    found = False
+    # convert_rule interpreted (sa.tabulate, Proxy) on a stand-in rule with two conditions; the stand-in convert_condition
+    # looks at the state it is given and writes into its processing state
+    from .standins import run_per_rule_converter
+    seen: list = []
+    def convert_fn(c, st):
+        ps = getattr(st, "processing_state", None)
+        seen.append((c, st, ps, dict(ps) if isinstance(ps, dict) else ps))
+        if isinstance(ps, dict):
+            ps["written while converting " + c] = True
+        return c
+    o = run_per_rule_converter(ctx, "convert_rule", convert_fn=convert_fn)
+    pipeline_state = o.me.last_processing_pipeline.state
+    if o.raised is not None:
+        r.violation("C15.R8", cr.qual, "convert_rule on a rule with two conditions", f"raises {o.raised}", cr.loc)
+    elif len(seen) != 2:
+        r.violation("C15.R8", cr.qual, "states = [ConversionState(...) for _ in rule.detection.parsed_condition]", f"convert_condition was called {len(seen)} times for two conditions", cr.loc)
+    else:
+        (c0, st0, ps0, at0), (c1, st1, ps1, at1) = seen
+        if st0 is st1:
+            r.violation("C15.R8", cr.qual, "states = [ConversionState(...) for _ in rule.detection.parsed_condition]", "convert_rule no longer builds one ConversionState per parsed condition: both conditions are converted with the same state object", cr.loc)
+        elif ps0 is pipeline_state or ps1 is pipeline_state or ps0 is ps1 or "written while converting c0" in (at1 or {}) or any(k.startswith("written") for k in pipeline_state):
+            r.violation("C15.R8", cr.qual, "ConversionState(processing_state=dict(self.last_processing_pipeline.state))",
+                        "the conversion state shares the pipeline's state dict (no copy): a state change made while converting one condition is seen by the next, "
+                        "and the next rule's pipeline run (or a deferred part of an earlier rule) observes the other rule's state", cr.loc)
+        elif at0 != {"set by the pipeline": 1} or at1 != {"set by the pipeline": 1}:
+            r.violation("C15.R8", cr.qual, "ConversionState(processing_state=dict(self.last_processing_pipeline.state))", f"the conversion states start with {at0!r} / {at1!r} instead of a copy of the state the pipeline left for this rule", cr.loc)
+        elif st0.deferred is st1.deferred:
+            r.violation("C15.R8", cr.qual, "states = [ConversionState(...) for _ in rule.detection.parsed_condition]", "the conversion states of the two conditions share one list of deferred expressions", cr.loc)
+        else:
+            r.ok("C15.R8", cr.qual, "each condition is converted with a ConversionState of its own whose processing state is a copy of the pipeline state: writes of one condition reach neither the other condition nor the pipeline (interpreted)", cr.loc)
+    # other constructions of a conversion state outside the per-rule converter: from a copy, or default
+    helpers = ctx.cg.reachable([cr.qual])
     for q, fi in sorted(prog.funcs.items()):
+        if q == cr.qual or (fi.cls is not None and fi.cls.qual == "sigma.conversion.base.Backend" and q in helpers):
+            continue  # interpreted above, together with convert_rule
         for call in (x for x in walk_no_nested(fi.node) if isinstance(x, ast.Call) and call_name(x).split(".")[-1] == "ConversionState"):
             loc = f"{fi.module.relpath}:{call.lineno}"
-            ps = [kw.value for kw in call.keywords if kw.arg == "processing_state"] or list(call.args[:1])
+            ps = [kw.value for kw in call.keywords if kw.arg == "processing_state"] or list(call.args[1:2])
             if not ps:
                 r.ok("C15.R8", q, f"{short(call, 100)}: default (fresh) processing state", loc)
                 continue
@@ -888,13 +921,6 @@ def r8_fresh_state(ctx) -> None:
                 r.violation("C15.R8", q, short(call, 140),
                             "the conversion state shares the pipeline's state dict (no copy): a state change made while converting one condition is seen by the next, "
                             "and the next rule's pipeline run (or a deferred part of an earlier rule) observes the other rule's state", loc)
-            if q == cr.qual:
-                p_ = prog.parent(call)
-                if isinstance(p_, ast.ListComp) and "parsed_condition" in unparse(p_.generators[0].iter):
-                    found = True
-    if not found:
-        r.violation("C15.R8", cr.qual, "states = [ConversionState(...) for _ in rule.detection.parsed_condition]",
-                    "convert_rule no longer builds one ConversionState per parsed condition", cr.loc)
     # ConversionState defaults must be fresh per instance
     cs = prog.cls("sigma.conversion.state.ConversionState")
     for st in cs.node.body:
